@@ -178,13 +178,34 @@ fn chunk_json(k: usize) -> Value {
     if k >= ALL { json!("all") } else { json!(k) }
 }
 
+/// chunk list with runs compressed: [2,2,2,1] -> ["2 x3", 1]
+fn chunks_json(v: &[usize]) -> Value {
+    let mut out: Vec<Value> = vec![];
+    let mut i = 0;
+    while i < v.len() {
+        let mut j = i;
+        while j < v.len() && v[j] == v[i] {
+            j += 1;
+        }
+        if j - i >= 3 {
+            out.push(json!(format!("{} x{}", chunk_json(v[i]), j - i)));
+        } else {
+            for _ in i..j {
+                out.push(chunk_json(v[i]));
+            }
+        }
+        i = j;
+    }
+    Value::Array(out)
+}
+
 impl CallSched {
     fn to_json(&self) -> Value {
         json!({
             "eager": self.eager,
             "polite": self.polite,
-            "input": self.input.as_ref().map(|v| v.iter().map(|k| chunk_json(*k)).collect::<Vec<_>>()),
-            "output": self.output.as_ref().map(|v| v.iter().map(|k| chunk_json(*k)).collect::<Vec<_>>()),
+            "input": self.input.as_ref().map(|v| chunks_json(v)),
+            "output": self.output.as_ref().map(|v| chunks_json(v)),
             "inner": self.inner.map(chunk_json),
         })
     }
@@ -501,8 +522,8 @@ fn gen_splan(rng: &mut Rng, depth: usize, len: usize, shared_ok: bool) -> SPlan 
         return SPlan::Done;
     }
     let rest = Box::new(gen_splan(rng, depth, len - 1, shared_ok));
-    if depth > 0 && rng.chance(1, 3) {
-        let own = !(shared_ok && rng.chance(1, 3));
+    if depth > 0 && rng.chance(if shared_ok { 3 } else { 2 }, 6) {
+        let own = !(shared_ok && rng.chance(2, 3));
         let inner_len = rng.below(3);
         let inner = Box::new(gen_splan(rng, depth - 1, inner_len, shared_ok));
         let fin = match rng.below(3) {
@@ -590,7 +611,24 @@ fn pull_tie(rng: &mut Rng, count: usize, out: &mut Out) {
     for i in 0..count {
         let shared_ok = i % 4 == 3;
         let len = 1 + rng.below(4);
-        let plan = gen_splan(rng, 2, len, shared_ok);
+        let plan = if i % 8 == 7 {
+            // the issue-205 shape: a closure sharing its constructor's carrier, then a resolver
+            // that pre-fetches inside its call
+            let post_len = rng.below(2);
+            let post = gen_splan(rng, 1, post_len, true);
+            let mut sched = gen_sched(rng);
+            sched.insert(0, 1 + rng.below(3));
+            let mid = SPlan::Resolve(sched, gen_fn(rng), Box::new(post));
+            let inner_len = rng.below(3);
+            let inner = gen_splan(rng, 1, inner_len, true);
+            let mut p = SPlan::Nested(false, Box::new(inner), gen_fn(rng), Fin::Sum, Box::new(mid));
+            for _ in 0..rng.below(3) {
+                p = SPlan::Resolve(gen_sched(rng), gen_fn(rng), Box::new(p));
+            }
+            p
+        } else {
+            gen_splan(rng, 2, len, shared_ok)
+        };
         let n = rng.below(7);
         let src: Vec<i128> = (0..n).map(|_| rng.range(0, 9) as i128).collect();
         let imp = run_mirror(&plan, &src);
@@ -887,7 +925,7 @@ fn join(v: &[i128]) -> String {
 
 fn interact_tie(rng: &mut Rng, count: usize, out: &mut Out) {
     for i in 0..count {
-        let size = 3 + rng.below(8);
+        let size = 5 + rng.below(10);
         let p = gen_sprog(rng, size, 0);
         let seed = rng.range(0, 20) as i128;
         // direct run
@@ -1067,14 +1105,21 @@ fn check_traced(label: &str, class: Option<&str>, traced: Traced, direct_rows: &
         out.oracle_fail("trace does not contain one ProduceQueryResult per row", input, json!({"rows": direct_rows.len(), "in_trace": nrows}));
         return;
     }
-    let fail = |out: &mut Out, what: &str, detail: Value| match class {
-        Some(k) => out.oracle_fail_class(k, what, input.clone(), detail),
-        None => out.oracle_fail(what, input.clone(), detail),
-    };
+    let fail = |out: &mut Out, what: &str, detail: Value| out.oracle_fail(what, input.clone(), detail);
     // (1) replay of the in-memory trace
     if let Err(m) = replay_checked(&trace, direct_rows) {
         out.count(&format!("{label}:replay-failed"));
-        fail(out, "replaying the recorded trace panicked", json!({"format": "memory", "panic": short(&m)}));
+        // the two known classes are recognised by the adapter family AND the way replay.rs fails
+        let expected: &[&str] = match class {
+            Some("K-trace-in-call-prefetch") => &["assertion `left == right` failed\n  left: None\n right: Some(Opid("],
+            Some("K-trace-repoll-after-exhaustion") => &["assertion failed: !self.exhausted", "internal error: entered unreachable code"],
+            _ => &[],
+        };
+        let detail = json!({"format": "memory", "panic": short(&m)});
+        match class {
+            Some(k) if expected.iter().any(|p| m.starts_with(p)) => out.oracle_fail_class(k, "replaying the recorded trace panicked", input.clone(), detail),
+            _ => out.oracle_fail("replaying the recorded trace panicked", input.clone(), detail),
+        }
         return;
     }
     // (2) ron round trip
